@@ -1348,6 +1348,207 @@ fn g_bases(rng: &mut Rng) -> String {
     format!("{},{},{}", one(rng), one(rng), one(rng))
 }
 
+/// a program that is valid with high probability: the generator tracks the depth of the implicit
+/// stack, the kind of CFA rule and the current location, and picks operands accordingly.
+/// Returns the instruction bytes; `loc` is updated.
+struct VState {
+    depth: usize,
+    cfa_expr: bool,
+    loc: u64,
+    mask: u64,
+    caf: u64,
+}
+
+fn g_valid_instr(rng: &mut Rng, st: &mut VState, big: bool, asz: u8, enc: Option<u8>, in_cie: bool, aarch64: bool) -> Vec<u8> {
+    let mut v = vec![];
+    let fixed = |v: &mut Vec<u8>, x: u64, n: usize| {
+        let b = x.to_le_bytes();
+        if big {
+            v.extend(b[..n].iter().rev());
+        } else {
+            v.extend(&b[..n]);
+        }
+    };
+    let reg = |rng: &mut Rng| *rng.pick(&[0u64, 1, 2, 3, 6, 7, 16, 29, 30, 34, 100]);
+    let room = st.mask - st.loc.min(st.mask);
+    loop {
+        match rng.below(30) {
+            0..=4 => {
+                // advance
+                let d = rng.below(20) + 1;
+                let Some(total) = d.checked_mul(st.caf) else { continue };
+                if total > room {
+                    continue;
+                }
+                match rng.below(4) {
+                    0 => v.push(0x40 | d as u8),
+                    1 => {
+                        v.push(0x02);
+                        v.push(d as u8);
+                    }
+                    2 => {
+                        v.push(0x03);
+                        fixed(&mut v, d, 2);
+                    }
+                    _ => {
+                        v.push(0x04);
+                        fixed(&mut v, d, 4);
+                    }
+                }
+                st.loc += total;
+            }
+            5 => {
+                // set_loc forward (only for the plain fixed-size encodings)
+                let plain = matches!(asz, 1 | 2 | 4 | 8);
+                let step = rng.below(9).min(room);
+                let a = st.loc + step;
+                match enc.map(|e| e & 0x7f) {
+                    None | Some(0) if plain => {
+                        v.push(0x01);
+                        fixed(&mut v, a, asz as usize);
+                    }
+                    Some(1) => {
+                        v.push(0x01);
+                        v.extend(uleb(a));
+                    }
+                    Some(2) if a <= 0xffff => {
+                        v.push(0x01);
+                        fixed(&mut v, a, 2);
+                    }
+                    Some(3) if a <= 0xffff_ffff => {
+                        v.push(0x01);
+                        fixed(&mut v, a, 4);
+                    }
+                    Some(4) | Some(12) => {
+                        v.push(0x01);
+                        fixed(&mut v, a, 8);
+                    }
+                    Some(11) if a <= 0x7fff_ffff => {
+                        v.push(0x01);
+                        fixed(&mut v, a, 4);
+                    }
+                    _ => continue,
+                }
+                st.loc = a;
+            }
+            6 | 7 => {
+                v.push(0x80 | rng.below(32) as u8);
+                v.extend(uleb(rng.below(40)));
+            }
+            8 => {
+                v.push(0x05);
+                v.extend(uleb(reg(rng)));
+                v.extend(uleb(rng.below(300)));
+            }
+            9 => {
+                if in_cie {
+                    continue;
+                }
+                v.push(0xc0 | rng.below(32) as u8);
+            }
+            10 => {
+                if in_cie {
+                    continue;
+                }
+                v.push(0x06);
+                v.extend(uleb(reg(rng)));
+            }
+            11 => {
+                v.push(0x07);
+                v.extend(uleb(reg(rng)));
+            }
+            12 => {
+                v.push(0x08);
+                v.extend(uleb(reg(rng)));
+            }
+            13 => {
+                v.push(0x09);
+                v.extend(uleb(reg(rng)));
+                v.extend(uleb(reg(rng)));
+            }
+            14 | 15 => {
+                if st.depth >= 2 {
+                    continue;
+                }
+                v.push(0x0a);
+                st.depth += 1;
+            }
+            16 | 17 => {
+                if st.depth == 0 {
+                    continue;
+                }
+                v.push(0x0b);
+                st.depth -= 1;
+                // the popped rule set may have either kind of CFA; stay conservative
+                st.cfa_expr = true;
+            }
+            18 => {
+                v.push(0x0c);
+                v.extend(uleb(reg(rng)));
+                v.extend(uleb(rng.below(4096)));
+                st.cfa_expr = false;
+            }
+            19 => {
+                v.push(0x12);
+                v.extend(uleb(reg(rng)));
+                v.extend(sleb(rng.below(64) as i64 - 32));
+                st.cfa_expr = false;
+            }
+            20 => {
+                if st.cfa_expr {
+                    continue;
+                }
+                match rng.below(3) {
+                    0 => {
+                        v.push(0x0d);
+                        v.extend(uleb(reg(rng)));
+                    }
+                    1 => {
+                        v.push(0x0e);
+                        v.extend(uleb(rng.below(4096)));
+                    }
+                    _ => {
+                        v.push(0x13);
+                        v.extend(sleb(rng.below(64) as i64 - 32));
+                    }
+                }
+            }
+            21 => {
+                v.push(0x0f);
+                v.extend(g_block(rng));
+                st.cfa_expr = true;
+            }
+            22 => {
+                v.push(*rng.pick(&[0x10u8, 0x16]));
+                v.extend(uleb(reg(rng)));
+                v.extend(g_block(rng));
+            }
+            23 => {
+                v.push(*rng.pick(&[0x11u8, 0x15]));
+                v.extend(uleb(reg(rng)));
+                v.extend(sleb(rng.below(64) as i64 - 32));
+            }
+            24 => {
+                v.push(0x14);
+                v.extend(uleb(reg(rng)));
+                v.extend(uleb(rng.below(64)));
+            }
+            25 => {
+                v.push(0x2e);
+                v.extend(uleb(rng.below(64)));
+            }
+            26 => {
+                if !aarch64 {
+                    continue;
+                }
+                v.push(0x2d);
+            }
+            _ => v.push(0x00),
+        }
+        return v;
+    }
+}
+
 fn mode_tok(dep: bool) -> &'static str {
     if dep { "@MODE@" } else { "release" }
 }
@@ -1364,11 +1565,23 @@ pub fn gen(ctx: &Ctx, emit: &mut dyn FnMut(String)) {
             emit(format!("cfi-blk release {st} 3 {s}"));
         }
     }
+    for st in blk_storages {
+        if !thorough && !matches!(*st, "heap" | "a2x2") {
+            continue;
+        }
+        for s in 0..ALPHABET.len() {
+            for t in 0..ALPHABET.len() {
+                emit(format!("cfi-blk release {st} 4 {s},{t}"));
+            }
+        }
+    }
     if thorough {
-        for st in blk_storages {
+        for st in ["heap", "a2x2", "a3x1"] {
             for s in 0..ALPHABET.len() {
                 for t in 0..ALPHABET.len() {
-                    emit(format!("cfi-blk release {st} 4 {s},{t}"));
+                    for u in 0..ALPHABET.len() {
+                        emit(format!("cfi-blk release {st} 5 {s},{t},{u}"));
+                    }
                 }
             }
         }
@@ -1388,7 +1601,7 @@ pub fn gen(ctx: &Ctx, emit: &mut dyn FnMut(String)) {
     // ---- B. decoding: all 256 opcode bytes with operands
     let mut rng = ctx.rng(0x0601);
     for opc in 0..=255u8 {
-        for variant in 0..ctx.n(6, 40) {
+        for variant in 0..ctx.n(18, 60) {
             let s = g_shape(&mut rng);
             let vendor = if rng.chance(1, 2) { "aarch64" } else { "default" };
             // operands: random LEB-ish bytes, boundary encodings, or nothing (truncation)
@@ -1435,9 +1648,70 @@ pub fn gen(ctx: &Ctx, emit: &mut dyn FnMut(String)) {
         }
     }
 
+    // ---- C0. structured-valid programs: every opcode, tracked state, moderate operands
+    let mut rng = ctx.rng(0x0604);
+    for _ in 0..ctx.n(60_000, 600_000) {
+        let big = rng.chance(1, 3);
+        let eh = rng.chance(2, 5);
+        let asz: u8 = if eh { 1 + rng.below(8) as u8 } else { *rng.pick(&[1u8, 2, 4, 8, 8, 4]) };
+        let enc: u8 = if eh {
+            if matches!(asz, 1 | 2 | 4 | 8) { *rng.pick(&[0x00u8, 0x01, 0x03, 0x04, 0x0b, 0x0c, 0x02]) } else { *rng.pick(&[0x01u8, 0x03, 0x04, 0x0b, 0x0c, 0x02]) }
+        } else {
+            0
+        };
+        let mask = mask_of(asz).unwrap();
+        let aarch64 = rng.chance(2, 3);
+        let caf = *rng.pick(&[1u64, 1, 1, 2, 4]);
+        let daf = *rng.pick(&[-8i64, -4, -8, 1, 8, -1, 4]);
+        // addresses: representable in the chosen field encoding
+        let field_max: u64 = match enc & 0x0f {
+            2 => 0xffff,
+            3 => 0xffff_ffff,
+            11 => 0x7fff_ffff,
+            12 => i64::MAX as u64,
+            _ => u64::MAX,
+        };
+        let lim = mask.min(field_max);
+        let initial = match rng.below(4) {
+            0 => 0,
+            1 => lim - rng.below(64).min(lim),
+            _ => rng.below(0x10000).min(lim),
+        };
+        let len = rng.below(256).min(lim);
+        let s = Shape { kind: if eh { "eh" } else { "df" }, big, asz, enc, mode_dep: false };
+        let mut addrs = vec![];
+        enc_value(&mut addrs, enc, initial, big, asz);
+        enc_value(&mut addrs, enc, len, big, asz);
+        let mut st = VState { depth: 0, cfa_expr: false, loc: 0, mask, caf };
+        let mut cie = vec![];
+        for _ in 0..rng.below(5) {
+            cie.extend(g_valid_instr(&mut rng, &mut st, big, asz, None, true, aarch64));
+        }
+        st.loc = initial;
+        let mut fde = vec![];
+        for _ in 0..rng.below(12) {
+            fde.extend(g_valid_instr(&mut rng, &mut st, big, asz, if eh { Some(enc) } else { None }, false, aarch64));
+        }
+        let storage = *rng.pick(&["heap", "heap", "vec", "a4x192", "a5x193", "a8x8"]);
+        emit(format!(
+            "cfi-unwind release {} {} {} {} {} {} -,-,- {} {} {} {} {}",
+            s.kind,
+            if big { "be" } else { "le" },
+            asz,
+            enc,
+            if aarch64 { "aarch64" } else { "default" },
+            storage,
+            caf,
+            daf,
+            hex(&cie),
+            hex(&addrs),
+            hex(&fde)
+        ));
+    }
+
     // ---- C. random programs over every opcode, boundary operands, every configuration
     let mut rng = ctx.rng(0x0602);
-    for case in 0..ctx.n(12_000, 400_000) {
+    for case in 0..ctx.n(30_000, 400_000) {
         let s = g_shape(&mut rng);
         let small = rng.chance(2, 3);
         let vendor = if rng.chance(2, 3) { "aarch64" } else { "default" };
